@@ -30,7 +30,9 @@ def build(rng, tier):
                     c = dict(k1=list(k1), k2=[rng.pick([NULL, 1, 2]) for _ in range(n)] if by in ("cols", "mixed") else None, vcols=vcols, by=by,
                              index=("default" if by == "level" else rng.pick(["default", "shuffled", "dups", "strings", "multi"])),
                              method=meth, select=(None if series else rng.pick([None, None, "one", "last"])), series=series,
-                             kkinds=[rng.pick(["str", "f64"]), rng.pick(["str", "f64"])], seed=rng.randrange(10 ** 6))
+                             kkinds=[rng.pick(["str", "f64", "cat"]), rng.pick(["str", "f64"])], seed=rng.randrange(10 ** 6))
+                    if by in ("col", "cols", "mixed") and not series and meth != "iter" and rng.random() < 0.2:
+                        c["select"], c["kkinds"][0] = "withkey", "f64"      # the selection names the key column again
                     out.append(c)
     return out
 
@@ -40,7 +42,7 @@ def run(tier):
         "Series/DataFrames of up to 3 (4) rows: every key column over {Null,1,2} (exhaustive for n<=2, sampled above) x keys "
         "given by column name / several names / array / index level / name+array mixture x index kind (default, shuffled "
         "ints, duplicated labels, strings, 2-level) x 1-2 value columns with zeros/negatives/nulls x with and without [] "
-        "selection x every facade method (10 aggregations, cumsum/cummax/cummin/cumcount, rolling sum/mean/min/max, "
+        "selection (one column, a list, a list that names the key column again) x string / float / categorical (with an unused category) keys x every facade method (10 aggregations, cumsum/cummax/cummin/cumcount, rolling sum/mean/min/max, "
         "iteration).  The facade's result, the core engine's result on the selected value columns and (where the property "
         "names it) pandas' result are all projected to the same trace formats and validated against the same specifications."))
     ck.mc_bg("GBCore", C01.MC.format(labels="{1, 2}", nkeys=2, vals="{1}", rows=3, kernels='{"sum", "first", "size"}', obv="FALSE"), "core_two_keys", workers=4)
